@@ -141,6 +141,9 @@ Proof.
   - eapply choice_go_gen_sa; eassumption.
   - cbn [single_append] in Hs. eapply IH; eassumption.
   - eapply rep_eval_sa; exact E.
+  - destruct (gen n e1 (push f) st) as [[v f2|c|x] st2]; try discriminate.
+    inversion E; subst. cbn [last merge cst set_cst]. split; [reflexivity|]. intros ->.
+    destruct ((if lft then left_assoc else right_assoc) (list_items v)); reflexivity.
   - destruct (call_appends _ _ _ _ _ _ _ _ E) as [HL HC]. split; [exact HL|]. intros Hf. rewrite HC, Hf. reflexivity.
 Qed.
 
